@@ -29,7 +29,7 @@ def faulty(topo, cfg, culprit, kind):
                         return time + eng.int('delta', None, 0)
                     if kind == 'none':
                         return None
-                    return [1.5, '3', [3]][eng.choose(3, 'nonint_value')]
+                    return [1.5, '3', [3], 2.0, 3.0][eng.choose(5, 'nonint_value')]     # whole-number floats are not integers either
             if what == 'get_data' and kind == 'early':
                 if state['fired_at'] is None and bool(fi == k):
                     state['fired_at'] = k
